@@ -26,6 +26,8 @@ EXTENDS Integers, Sequences, FiniteSets, TLC, Json
 CONSTANTS DevSets,   \* sets of deviations to explore: {{}} = intended design only; {{}, D} = intended design and the
                      \* machine as coded (D = deviations listed as known findings), side by side in one run
           Configs,   \* set of [V, R, keylen, cfm, em, perms, id, form, encplace, dv]
+                     \*   form: table | xrefstm (cross-reference stream + object stream) | hybrid (table + /XRefStm + object
+                     \*   stream) | xrefstmw0 (/W [1 n 0]: no generation field) | xrefstm0w (/W [0 n 2]: no type field)
                      \*   dv: how the Encrypt dictionary spells entries that do not matter for this V/R:
                      \*   plain | len40 len64 nolen (a top-level /Length that only V 2/3 give a meaning to, or none)
                      \*   | alt (crypt filter named other than StdCF, /CF /Length in bits, /EncryptMetadata written out)
@@ -165,7 +167,7 @@ Layers(c, it) ==
 ItemsOf(c) ==
   {it \in Items :
      /\ it.loc = "objstm" => c.form \in {"xrefstm", "hybrid"}
-     /\ it.loc = "xrefstm" => c.form \in {"xrefstm", "hybrid", "xrefstmw0"}
+     /\ it.loc = "xrefstm" => c.form \in {"xrefstm", "hybrid", "xrefstmw0", "xrefstm0w"}
      /\ c.form = "xrefstmw0" => it.g = 0          \* /W [1 2 0]: there is no generation field, every generation is 0
      /\ it.loc = "encdict" => c.encplace = "indirect"
      /\ (it.loc = "trailer" /\ it.type = "encrypt") => c.encplace = "direct"
